@@ -164,7 +164,7 @@ Lemma JInv_add_jobs s b u up js stg :
   (forall b' u', cval (fun k => key_eqb (firstn 3 k) [b'; u'; 0]) 0 stg = root_staged s b' u' + upd_count b' u' (map fst js)) ->
   JInv (s <| jobs ::= fun l => l ++ map fst js |> <| parents ::= fun l => l ++ new_edges b js |> <| staging := stg |>).
 Proof.
-  intros J Fu Hunc NDid Hnj Hstg. pose proof J as [J1 J2 J3 J4 J5 J6 J7 J8 J9].
+  intros J Fu Hunc NDid Hnj Hstg. pose proof J as [J1 J2 J3 J4 J5 J6 J7 J8 J9 J10].
   set (s2 := s <| jobs ::= fun l => l ++ map fst js |> <| parents ::= fun l => l ++ new_edges b js |> <| staging := stg |>).
   assert (Ej : jobs s2 = jobs s ++ map fst js) by reflexivity.
   assert (Ep : parents s2 = parents s ++ new_edges b js) by reflexivity.
@@ -236,6 +236,7 @@ Proof.
       destruct (u =? 1); cbn [andb]; [split; reflexivity | reflexivity].
   - intros uu Huu Hcu. unfold root_staged. change (staging s2) with stg. rewrite Hstg, (J9 uu Huu Hcu).
     unfold n_jobs_of, upd_count. rewrite Ej, filter_app, app_length, Nat2Z.inj_add. reflexivity.
+  - exact J10.
 Qed.
 
 (* ------------------------------------------------------------------ staging rows of the inserted jobs *)
